@@ -537,6 +537,10 @@ func genBroken() {
 		add(caseT{Family: "broken", What: what, Call: "deriveEqual", Names: []string{"deriveEqual", "deriveCompare", ".go", "PKGDIR", "package"}, UserBad: userbad}, files)
 	}
 	b("control: valid package", false, map[string]string{"u.go": goodUser})
+	add(caseT{Family: "broken", What: "conflict without -autoname (one name, two argument types)", Call: "deriveEqual", Names: []string{"deriveEqual", "conflict"}, Unsupp: true},
+		map[string]string{"u.go": goodUser + "\nfunc EqInts(a, b []int) bool { return deriveEqual(a, b) }\n"})
+	add(caseT{Family: "broken", What: "duplicate without -dedup (two names, one argument type)", Call: "deriveEqual", Names: []string{"deriveEqual", "deriveEqualAgain", "ambig"}, Unsupp: true},
+		map[string]string{"u.go": goodUser + "\nfunc EqAgain(a, b *S) bool { return deriveEqualAgain(a, b) }\n"})
 	b("syntax error in a second user file (missing brace)", true, map[string]string{"u.go": goodUser, "v.go": "package PKGDIR\n\nfunc Broken() {\n\tif true {\n\t\treturn\n}\n"})
 	b("syntax error in the file holding the derive call", true, map[string]string{"u.go": goodUser + "\nfunc Broken( {\n"})
 	b("file that is not Go at all", true, map[string]string{"u.go": goodUser, "v.go": "\x00\x01\x02 this is not go \xff\xfe\n"})
